@@ -31,6 +31,7 @@ class RNum (ρ : Type) extends Add ρ, Sub ρ, Mul ρ, Div ρ, Neg ρ where
   /-- `n as f32` for a `usize` -/
   ofNat32 : Nat → ρ
   add32   : ρ → ρ → ρ
+  sub32   : ρ → ρ → ρ
   mul32   : ρ → ρ → ρ
   div32   : ρ → ρ → ρ
   /-- IEEE bit pattern for printing (0 for the exact instance: never compared) -/
@@ -84,6 +85,7 @@ instance : RNum Float where
   n32 x := x.toFloat32.toFloat
   ofNat32 n := (Float32.ofNat n).toFloat
   add32 a b := (a.toFloat32 + b.toFloat32).toFloat
+  sub32 a b := (a.toFloat32 - b.toFloat32).toFloat
   mul32 a b := (a.toFloat32 * b.toFloat32).toFloat
   div32 a b := (a.toFloat32 / b.toFloat32).toFloat
   bits := Float.toBits
@@ -129,6 +131,7 @@ instance : RNum Rat where
   n32 x := x
   ofNat32 n := (n : Rat)
   add32 a b := a + b
+  sub32 a b := a - b
   mul32 a b := a * b
   div32 a b := a / b
   bits _ := 0
